@@ -401,6 +401,53 @@ def r02_5(ctx):
     ctx.floor("R02.5", 2)
 
 
+# ------------------------------------------------------------------------------------------------ R02.6
+def r02_6(ctx):
+    """Stochastic Taylor comparison for a generic scalar SDE (tsverif/taylor.py): for every (solver, noise type, option)
+    scenario the canonical step, specialised to state dimension 1 and one Brownian channel (prod(g, v) = g v,
+    (g dg)(v) = g g_y v, Levy area 0), is expanded in (h, dW, U) about (t0, y0) with the partial derivatives of f and g
+    as free symbols and compared with the Ito / Stratonovich Taylor expansion built from the operators L^0, L^1.  With
+    p the strong order the solver object advertises for that noise type: all terms of weight <= p agree identically
+    and the expectation of the terms of weight p + 1/2 agrees -- the two local-error hypotheses of Milstein's
+    fundamental theorem, hence (for scalar SDEs with smooth Lipschitz coefficients) strong order p."""
+    from .. import taylor
+    rep, model = ctx.rep, ctx.model
+    rep.rule("R02.6", "generic scalar SDE: step == Ito/Stratonovich Taylor expansion identically up to weight p and in "
+                      "expectation at weight p + 1/2, p = advertised strong order (derivatives of f, g symbolic)")
+    dom = _dom(ctx)
+    n = 0
+    classes = set()
+    for sc in steps.scenarios(model, dom):
+        key = ("step-all", sc.label, sc.sde_type)
+        if key not in ctx._cache:
+            ctx._cache[key] = steps.eval_step(model, sc, dom)
+        y1, _, _, (t0, h, t1, y0) = ctx._cache[key]
+        order = solvers.solver_attr(model, sc.obj, "strong_order")
+        if not isinstance(order, (Fraction, int, float)) or isinstance(order, bool):
+            raise AnalysisError(f"strong_order of {sc.label} evaluates to {order!r}", where=astq.loc(sc.step_fi))
+        p = nf.frac(order)
+        additive = sc.noise_type == dom.noise_types.get("additive")
+        ito = sc.sde_type == dom.sde_types.get("ito")
+        ex = taylor.Expander(additive=additive, t0=t0, h=h, y0=y0, aliases={("t", "z0")})
+        series = ex.expand(y1, p + Fraction(1, 2))
+        failures = taylor.local_error_conditions(series, ito, additive, p)
+        rep.analysed(sc.step_fi)
+        classes.add(sc.cls.name)
+        n += 1
+        msg = "; ".join(
+            (f"terms of weight {w} differ from the {'Ito' if ito else 'Stratonovich'}-Taylor expansion by `{taylor.show(r)}` "
+             f"(local mean-square error of order h^{w}, needs h^{p + Fraction(1, 2)})") if kind == "mean-square" else
+            (f"the expectation of the terms of weight {w} differs by `{taylor.show(r)}` (local mean error of order h^{w}, "
+             f"needs h^{p + 1})") for kind, w, r in failures)
+        rep.check(not failures, "R02.6", astq.loc(sc.step_fi),
+                  f"{sc.step_fi.key}::R02.6::{sc.cls.name}::{sc.noise_type}::{','.join(sorted(k for k, v in sc.options.items() if v))}",
+                  f"{sc.label} ({sc.sde_type}, advertised strong order {p}) on a generic scalar SDE: {msg}",
+                  "local error conditions hold", facts={"p": str(p), "field_expansions": ex.n_fn,
+                                                        "series_terms": len(series.terms)})
+    if len(classes) < 9 or n < 30:
+        raise AnalysisError(f"R02.6 covered {n} scenarios of {sorted(classes)}; expected all nine forward solver classes")
+    ctx.floor("R02.6", 30)
+
 
 # ------------------------------------------------------------------------------------------------ R02.4
 TABLEAU_FIELDS_SRI = ("A0", "A1", "B0", "B1", "C0", "C1", "alpha", "beta1", "beta2", "beta3", "beta4")
@@ -646,3 +693,4 @@ def run(ctx):
     ctx.guard(r02_3)
     ctx.guard(r02_5)
     ctx.guard(r02_4)
+    ctx.guard(r02_6)
